@@ -1277,12 +1277,16 @@ fn api_cmd(args: &[String]) {
         let lig = Lookup::one(SubstSubtable::Ligature { coverage: Coverage::Glyphs(vec![1]), ligature_sets: vec![vec![Ligature { glyph: 9, components: vec![2, 3] }, Ligature { glyph: 8, components: vec![2] }]] });
         let ctx = Lookup::one(SubstSubtable::Context3 { coverages: vec![Coverage::Glyphs(vec![4]), Coverage::Glyphs(vec![5])], lookups: vec![SeqLookup { sequence_index: 0, lookup_index: 2 }] });
         let single = Lookup::one(SubstSubtable::Single1 { coverage: Coverage::Glyphs(vec![4]), delta: 6 });
-        spec.gsub = Some(Layout::with_features(vec![(*b"dlig", vec![0]), (*b"ss05", vec![1])], vec![lig, ctx, single]));
+        // ss06: a reverse-chaining single substitution (type 8, applied back to front): 6 -> 11 when a 1 follows
+        let rev = Lookup::one(SubstSubtable::ReverseChain { coverage: Coverage::Glyphs(vec![6]), backtrack: vec![], lookahead: vec![Coverage::Glyphs(vec![1])], substitutes: vec![11] });
+        spec.gsub = Some(Layout::with_features(vec![(*b"dlig", vec![0]), (*b"ss05", vec![1]), (*b"ss06", vec![3])], vec![lig, ctx, single, rev]));
         let data = build(&spec);
         let face_f = Face::from_slice(&data, 0).expect("font F parses");
         // glyphs 1 2 3 (-> 9, or 1 2 -> 8) and 4 5 (4 -> 10 before 5)
         let text: Vec<u32> = vec![0, 1, 2, 5, 3, 4, 0, 1];
-        for tagname in ["dlig", "ss05"] {
+        // (glyph 6 = text value 5 stands at index 3, followed by 4 - not a 1; a second text puts it before a 1)
+        for tagname in ["dlig", "ss05", "ss06"] {
+            let text: Vec<u32> = if tagname == "ss06" { vec![5, 0, 1, 5, 0, 5, 5, 0] } else { text.clone() };
             for start in 0..=8u32 {
                 for end in start..=9u32 {
                     for on in [true, false] {
@@ -1326,6 +1330,12 @@ fn api_cmd(args: &[String]) {
                             }
                             if tagname == "ss05" && gl[i] == 4 && active(c) && i + 1 < gl.len() && gl[i + 1] == 5 && active(c + 1) {
                                 want.push((10, c));
+                                i += 1;
+                                continue;
+                            }
+                            // the lookahead glyph only has to be there: it is matched without regard to its own mask
+                            if tagname == "ss06" && gl[i] == 6 && active(c) && i + 1 < gl.len() && gl[i + 1] == 1 {
+                                want.push((11, c));
                                 i += 1;
                                 continue;
                             }
